@@ -249,7 +249,7 @@ func genDynCase(cfg *hx.Config, maxOps int) dynCase {
 	case 4:
 		c.gap = 2
 	case 5:
-		c.gap = r.Intn(5) - 1 // -1..3
+		c.gap = r.Intn(4) // 0..3
 	}
 	scrolly := r.Intn(10) < 4 // scroll-heavy traces: upward insertion needs offset > 0 or a negative pending scroll
 	n := r.Intn(10)
@@ -925,6 +925,8 @@ func main() {
 	// ---- Dynamic
 	ds := hx.NewStream("dyn", "model.Lists", "dyn_case", "c19_dyn_mismatches", "c19_dyn_violations")
 	ds.ShardMax = 150
+	ds.Known = "c19_dyn_known"
+	ds.KnownClass = "scroll-past-end"
 	addDyn := func(c dynCase, tag string) {
 		term, js, nontriv, panicked := runDyn(c)
 		tags := []string{tag}
@@ -939,6 +941,9 @@ func main() {
 		}
 		ds.Add(term, js, nontriv, tags...)
 	}
+	// corpus case of finding scroll-past-end (always generated): three items of height 1 in a
+	// viewport of 5 rows, one wheel-down: everything is drawn above row 0 and the scroll is not recorded
+	addDyn(dynCase{gap: 0, dc: false, hs: ones(3, 1), ops: []dynOp{{kind: "draw", a: 4, b: 5}, {kind: "wheeldown"}, {kind: "draw", a: 4, b: 5}, {kind: "draw", a: 4, b: 5}}}, "corpus-scroll-past-end")
 	for _, c := range directedDyn() {
 		addDyn(c, "directed")
 	}
@@ -1052,6 +1057,6 @@ func main() {
 	hx.WithTimeout(2e9, vx.Close)
 
 	cfg.Write("C19",
-		"operation traces: vxfw/list.Dynamic (directed DESIGN-6 scenarios, every sequence of <=3 (quick) / <=4 (thorough) ops over {next,prev,wheel-down,wheel-up,draw} on small uniform lists, random sequences over next/prev (method, j/k, arrow keys), wheel events, SetCursor incl. beyond the end and >= 2^63, SetPendingScroll, item replacement, draws; item counts 0..9, heights 0..12, gaps -1..3, viewports 0..9); widgets/list.List (all methods, item replacement, windows 0..4 x -1..6 read back from the Vaxis screen); pager (texts with newlines, wide, combining, ZWJ, tab, CRLF, zero-width characters over up to 3 segments; draws at widths -1..8, scrolling, Offset assignment, re-layout); scrollbar (random totals/views/tops/windows). non-trivial = dyn: some Draw ran with a pending scroll or the wants-cursor flag; wlist: some Draw with offset > 0; pager: some Draw with Offset > 0; sbar: sensible position (1<=view<total, 0<=top<=total-view, window >= 1x1)",
+		"operation traces: vxfw/list.Dynamic (directed DESIGN-6 scenarios, every sequence of <=3 (quick) / <=4 (thorough) ops over {next,prev,wheel-down,wheel-up,draw} on small uniform lists, random sequences over next/prev (method, j/k, arrow keys), wheel events, SetCursor incl. beyond the end and >= 2^63, SetPendingScroll, item replacement, draws; item counts 0..9, heights 0..12, gaps 0..3, viewports 0..9); widgets/list.List (all methods, item replacement, windows 0..4 x -1..6 read back from the Vaxis screen); pager (texts with newlines, wide, combining, ZWJ, tab, CRLF, zero-width characters over up to 3 segments; draws at widths -1..8, scrolling, Offset assignment, re-layout); scrollbar (random totals/views/tops/windows). non-trivial = dyn: some Draw ran with a pending scroll or the wants-cursor flag; wlist: some Draw with offset > 0; pager: some Draw with Offset > 0; sbar: sensible position (1<=view<total, 0<=top<=total-view, window >= 1x1)",
 		[]*hx.Stream{ds, ws, ps, ss}, map[string]interface{}{"dynamic_draw_statistics": dynStats}, direct)
 }
